@@ -51,7 +51,7 @@ func (f *Formatter) Format(content string) (string, error) {
 
 	// Check if this looks like a full document (starts with <!DOCTYPE or <html)
 	trimmedBody := strings.TrimSpace(body)
-	isFullDocument := strings.HasPrefix(trimmedBody, "<!DOCTYPE") || strings.HasPrefix(trimmedBody, "<html")
+	isFullDocument := hasDoctypePrefix(trimmedBody) || strings.HasPrefix(trimmedBody, "<html")
 
 	if isFullDocument {
 		return f.formatFullDocument(frontmatter, body)
@@ -59,6 +59,12 @@ func (f *Formatter) Format(content string) (string, error) {
 
 	// Handle partial/fragment formatting
 	return f.formatFragment(frontmatter, body)
+}
+
+// hasDoctypePrefix reports whether s starts with a doctype declaration (in any letter case).
+func hasDoctypePrefix(s string) bool {
+	const p = "<!DOCTYPE"
+	return len(s) >= len(p) && strings.EqualFold(s[:len(p)], p)
 }
 
 // formatFullDocument formats a complete HTML document.
@@ -69,7 +75,7 @@ func (f *Formatter) formatFullDocument(frontmatter, body string) (string, error)
 	var doctype string
 	var htmlContent string
 
-	if strings.HasPrefix(trimmedBody, "<!DOCTYPE") {
+	if hasDoctypePrefix(trimmedBody) {
 		// Find the end of DOCTYPE declaration
 		endIdx := strings.Index(trimmedBody, ">")
 		if endIdx != -1 {
